@@ -774,13 +774,13 @@ class QMI_SocketTransport(QMI_Transport):
         try:
             ret = self.read(nbytes, timeout)
         except QMI_TimeoutException:
-            ret = bytes(self._read_buffer)
-            self._read_buffer = bytearray()
+            ret = bytes(self._read_buffer[:nbytes])
+            self._read_buffer = self._read_buffer[nbytes:]
         except QMI_EndOfInputException:
             if not self._read_buffer:
                 raise
-            ret = bytes(self._read_buffer)
-            self._read_buffer = bytearray()
+            ret = bytes(self._read_buffer[:nbytes])
+            self._read_buffer = self._read_buffer[nbytes:]
         return ret
 
     def discard_read(self) -> None:
